@@ -23,6 +23,7 @@ pub mod c14_guard;
 pub mod c01_merge;
 pub mod c05_patch;
 pub mod c04_diff;
+pub mod c06_root;
 
 #[cfg(not(kani))]
 include!(concat!(env!("OUT_DIR"), "/registry.rs"));
